@@ -7,12 +7,24 @@ import BigtreeProofs.Lemmas.ModifyStr
 -/
 namespace Modify
 
-/-- all three separators are the single character `c` and from-paths are full paths -/
+/-- all three separators are the single character `c` -/
 structure Cfg.Plain (cfg : Cfg) (c : Char) : Prop where
   sep : cfg.sep = [c]
   fsep : cfg.fsep = [c]
   tsep : cfg.tsep = [c]
-  full : cfg.withFullPath = true
+
+/-- The from-string `fs` of a pair addresses the node `F` at `fp` of `tree`: it survives the
+separator normalisation, the lookup the call performs (`find_full_path` with `with_full_path`,
+`find_path` otherwise) returns that node, its last component is `l`, and with `with_full_path` it
+starts at the root. `FromOK.full` / `FromOK.partial` establish this for printed full paths and for
+partial paths that address exactly one node. -/
+structure FromOK (cfg : Cfg) (tree : Tree) (fs : Str) (fp : List Str) (F : Tree) (l : Str) : Prop where
+  norm : normFrom cfg fs = fs
+  res : (if cfg.withFullPath then findFullPath cfg.fsep tree fs else findPath cfg.fsep tree fs)
+          = .ok (some (fp, F))
+  found : getRel fp tree = some F
+  last : lastComp cfg.fsep fs = l
+  root : cfg.withFullPath = true → headComp cfg.fsep fs = tree.name
 
 variable {cfg : Cfg} {c : Char}
 
@@ -41,13 +53,26 @@ theorem findFullPath_pathStr (t : Tree) (p : List Str) (hg : GoodNames c (t.name
   rw [comps_pathName _ _ hg]
   simp
 
-theorem resolveFrom_pathStr (hc : cfg.Plain c) (st : St) (p : List Str)
-    (hg : GoodNames c (st.tree.name :: p)) :
-    resolveFrom cfg st (pathStr c st.tree.name p) = .ok ((getRel p st.tree).map (fun x => (p, x))) := by
-  unfold resolveFrom
-  rw [hc.full, hc.fsep]
-  simp only [if_true]
-  exact findFullPath_pathStr _ _ hg
+theorem resolveFrom_of (st : St) {fs : Str} {fp : List Str} {F : Tree} {l : Str}
+    (h : FromOK cfg st.tree fs fp F l) : resolveFrom cfg st fs = .ok (some (fp, F)) := h.res
+
+/-- a printed full path with `with_full_path=True` -/
+theorem FromOK.full (hc : cfg.Plain c) (hfull : cfg.withFullPath = true) (t : Tree) (fpar : List Str)
+    (l : Str) (F : Tree) (hg : GoodNames c (t.name :: fpar ++ [l])) (hF : getRel (fpar ++ [l]) t = some F) :
+    FromOK cfg t (pathStr c t.name (fpar ++ [l])) (fpar ++ [l]) F l where
+  norm := normFrom_pathStr hc _ _ (by simpa using hg)
+  res := by
+    rw [hfull, hc.fsep]
+    simp only [if_true]
+    rw [findFullPath_pathStr _ _ (by simpa using hg), hF]; rfl
+  found := hF
+  last := by
+    rw [hc.fsep]; unfold pathStr
+    rw [lastComp_pathName _ (by simp) (by simpa using hg)]
+    simp [List.getLast_cons]
+  root := fun _ => by
+    rw [hc.fsep]; unfold pathStr
+    exact headComp_pathName _ _ (by simpa using hg)
 
 theorem addPath_parent (t : Tree) (k : Nat) (tpar : List Str) (l : Str)
     (hg : GoodNames c (t.name :: tpar ++ [l])) :
@@ -119,62 +144,170 @@ theorem valid_single (st : St) (pr : Str × Option Str)
     (h1 : (cfg.mergeChildren && cfg.mergeLeaves) = false)
     (h2 : (cfg.copy && isDelete pr.2) = false)
     (h3 : nameOk cfg (norm cfg pr) = true)
-    (h4 : fromRootOk cfg st.tree.name (norm cfg pr) = true)
+    (h4 : cfg.withFullPath = true → fromRootOk cfg st.tree.name (norm cfg pr) = true)
     (h5 : toRootOk cfg st.dst.name (norm cfg pr) = true) : valid cfg st [pr] = true := by
   unfold valid
   simp only [List.any_cons, List.any_nil, Bool.or_false, List.map_cons, List.map_nil, List.all_cons,
-    List.all_nil, Bool.and_true, h1, h2, h3, h4, h5]
-  simp
+    List.all_nil, Bool.and_true, h1, h2, h3, h5]
+  cases hw : cfg.withFullPath with
+  | false => simp
+  | true => simp [h4 hw]
 
 /-- the state of a same-tree call -/
 abbrev st0 (t : Tree) (k : Nat) : St := ⟨none, t, k⟩
 
 @[simp] theorem st0_tree (t k) : (st0 t k).tree = t := rfl
 
-/-- validity of a (full from-path, full to-path) pair with matching last names -/
-theorem valid_move (hc : cfg.Plain c) (t : Tree) (k : Nat) (fpar tpar : List Str) (l : Str)
+theorem nameOk_of (hc : cfg.Plain c) {tree : Tree} {fs : Str} {fp : List Str} {F : Tree} {l : Str}
+    (hfr : FromOK cfg tree fs fp F l) (r' : Str) (p' : List Str)
+    (hg' : GoodNames c (r' :: p' ++ [l])) :
+    nameOk cfg (fs, some (pathStr c r' (p' ++ [l]))) = true := by
+  unfold nameOk
+  cases hp : pathStr c r' (p' ++ [l]) with
+  | nil => rfl
+  | cons x xs =>
+    simp only
+    rw [← hp, hfr.last, hc.tsep]
+    unfold pathStr
+    rw [lastComp_pathName _ (by simp) (by simpa using hg')]
+    simp [List.getLast_cons]
+
+/-- validity of a (from, full to-path) pair with matching last names; `src`/`k` arbitrary -/
+theorem valid_move (hc : cfg.Plain c) (st : St) (fs : Str) (fp : List Str) (F : Tree)
+    (tpar : List Str) (l : Str)
     (hm : (cfg.mergeChildren && cfg.mergeLeaves) = false)
-    (hgf : GoodNames c (t.name :: fpar ++ [l])) (hgt : GoodNames c (t.name :: tpar ++ [l])) :
-    valid cfg (st0 t k) [(pathStr c t.name (fpar ++ [l]), some (pathStr c t.name (tpar ++ [l])))] = true := by
-  have hgf' : GoodNames c (t.name :: (fpar ++ [l])) := by simpa using hgf
-  have hgt' : GoodNames c (t.name :: (tpar ++ [l])) := by simpa using hgt
+    (hfr : FromOK cfg st.tree fs fp F l) (hgt : GoodNames c (st.dst.name :: tpar ++ [l])) :
+    valid cfg st [(fs, some (pathStr c st.dst.name (tpar ++ [l])))] = true := by
+  have hgt' : GoodNames c (st.dst.name :: (tpar ++ [l])) := by simpa using hgt
   apply valid_single
   · exact hm
-  · cases hp : pathStr c t.name (tpar ++ [l]) with
+  · cases hp : pathStr c st.dst.name (tpar ++ [l]) with
     | nil => exact absurd hp (pathStr_ne_nil _ _)
     | cons x xs => simp [isDelete]
-  · simp only [norm, normFrom_pathStr hc _ _ hgf', normTo_pathStr hc _ _ hgt']
-    exact nameOk_pathStr hc _ _ _ _ _ hgf hgt
-  · simp only [norm, normFrom_pathStr hc _ _ hgf', st0_tree]
-    exact fromRootOk_pathStr hc _ _ _ hgf'
+  · simp only [norm, hfr.norm, normTo_pathStr hc _ _ hgt']
+    exact nameOk_of hc hfr _ _ hgt
+  · intro hw
+    simp only [norm, hfr.norm, fromRootOk, hfr.root hw]
+    simp
   · simp only [norm, normTo_pathStr hc _ _ hgt']
     exact toRootOk_pathStr hc _ _ _ hgt'
 
-theorem valid_delete (hc : cfg.Plain c) (t : Tree) (k : Nat) (fp : List Str)
+theorem valid_delete (t : Tree) (k : Nat) (fs : Str) (fp : List Str) (F : Tree) (l : Str)
     (hm : (cfg.mergeChildren && cfg.mergeLeaves) = false) (hcp : cfg.copy = false)
-    (hgf : GoodNames c (t.name :: fp)) :
-    valid cfg (st0 t k) [(pathStr c t.name fp, none)] = true := by
+    (hfr : FromOK cfg t fs fp F l) :
+    valid cfg (st0 t k) [(fs, none)] = true := by
   apply valid_single
   · exact hm
   · simp [hcp]
   · simp [norm, normTo, nameOk]
-  · simp only [norm, normFrom_pathStr hc _ _ hgf, st0_tree]
-    exact fromRootOk_pathStr hc _ _ _ hgf
+  · intro hw
+    simp only [norm, hfr.norm, fromRootOk, st0_tree, hfr.root hw]
+    simp
   · simp [norm, normTo, toRootOk]
 
 /-- `shift_nodes(tree, [from], [None])` -/
-theorem delete_step (hc : cfg.Plain c) (hcp : cfg.copy = false) (hmc : cfg.mergeChildren = false)
+theorem delete_step (hcp : cfg.copy = false) (hmc : cfg.mergeChildren = false)
     (hml : cfg.mergeLeaves = false) (hdc : cfg.deleteChildren = false)
-    (t : Tree) (k : Nat) (fp : List Str) (F : Tree)
-    (hg : GoodNames c (t.name :: fp)) (hF : getRel fp t = some F) :
-    copyOrShift cfg (st0 t k) [(pathStr c t.name fp, none)] = .ok (st0 (removeAt fp t) k) := by
-  rw [copyOrShift_single _ _ (valid_delete hc t k fp (by simp [hmc]) hcp hg)]
-  simp only [norm, normTo, normFrom_pathStr hc _ _ hg]
+    (t : Tree) (k : Nat) (fs : Str) (fp : List Str) (F : Tree) (l : Str)
+    (hfr : FromOK cfg t fs fp F l) :
+    copyOrShift cfg (st0 t k) [(fs, none)] = .ok (st0 (removeAt fp t) k) := by
+  rw [copyOrShift_single _ _ (valid_delete t k fs fp F l (by simp [hmc]) hcp hfr)]
+  simp only [norm, normTo, hfr.norm]
   unfold step
-  have hr := resolveFrom_pathStr hc (st0 t k) fp (by simpa using hg)
-  simp only [st0_tree, hF, Option.map_some] at hr
+  have hr := resolveFrom_of (st0 t k) hfr
+  have hF := hfr.found
   simp only [hr, decideTo, hmc, attach, Option.isNone_none, if_true, hF, Option.getD_some,
     Option.isSome_some, hcp, Bool.not_false, Bool.and_true, hml, hdc, attachNode]
   simp
+
+end Modify
+
+namespace Modify
+
+variable {cfg : Cfg} {c : Char}
+
+/-! ### partial from-paths: `find_path` -/
+
+theorem nodesRelL_filter_none {n : Str} {q : List Str} {l : List Tree} (hl : ∀ y ∈ l, y.name ≠ n) :
+    (nodesRelL l).filter (fun pr => pr.1 == n :: q) = [] := by
+  rw [List.filter_eq_nil_iff]
+  intro pr hpr
+  obtain ⟨x, hx, r, _, rfl⟩ := mem_nodesRelL.1 hpr
+  have := hl x hx
+  simp [this]
+
+/-- exactly one node has the path `fp`, and it is the one `getRel` finds -/
+theorem nodesRel_filter_path {fp : List Str} {t F : Tree} (hu : SibUnique t) (hF : getRel fp t = some F) :
+    (nodesRel t).filter (fun pr => pr.1 == fp) = [(fp, F)] := by
+  induction fp generalizing t with
+  | nil =>
+    simp at hF; subst hF
+    cases t with
+    | node i n a cs =>
+      rw [nodesRel_node, List.filter_cons]
+      have : (nodesRelL cs).filter (fun pr => pr.1 == ([] : List Str)) = [] := by
+        rw [List.filter_eq_nil_iff]
+        intro pr hpr
+        obtain ⟨x, _, r, _, rfl⟩ := mem_nodesRelL.1 hpr
+        simp
+      rw [this]
+      simp
+  | cons n ns ih =>
+    cases t with
+    | node i nm a cs =>
+      rw [getRel_cons] at hF
+      cases hc' : findChild n cs with
+      | none => simp [hc'] at hF
+      | some x =>
+        simp [hc'] at hF
+        obtain ⟨l, r, rfl, hl, hx⟩ := findChild_split hc'
+        obtain ⟨hnd, hch⟩ := sibUnique_node.1 hu
+        have hr := names_ne_of_nodup hx hnd
+        rw [nodesRel_node, List.filter_cons, nodesRelL_append, nodesRelL_cons, List.filter_append,
+          List.filter_append, nodesRelL_filter_none hl, nodesRelL_filter_none hr, List.filter_map]
+        have : ((fun pr : List Str × Tree => pr.1 == n :: ns) ∘ fun pr : List Str × Tree => (x.name :: pr.1, pr.2))
+            = fun pr => pr.1 == ns := by
+          funext pr
+          simp [hx]
+        rw [this, ih (hch x (by simp)) hF]
+        simp [hx]
+
+theorem mem_paths_of_mem_nodesRel {t : Tree} {pr : List Str × Tree} (h : pr ∈ nodesRel t) :
+    pr.1 ∈ paths t := by
+  unfold paths flat
+  rw [List.map_map]
+  exact List.mem_map.2 ⟨pr, h, rfl⟩
+
+/-- a partial path (or node name) that matches exactly one node, with `with_full_path=False` -/
+theorem FromOK.partial (hc : cfg.Plain c) (hfull : cfg.withFullPath = false) (t : Tree) (fs : Str)
+    (fp : List Str) (F : Tree) (l : Str) (hu : SibUnique t) (hF : getRel fp t = some F)
+    (hnorm : stripR [c] fs = fs) (hlast : lastComp [c] fs = l)
+    (huniq : ∀ q ∈ paths t, fs.isSuffixOf (pathStr c t.name q) = true ↔ q = fp) :
+    FromOK cfg t fs fp F l where
+  norm := by
+    unfold normFrom
+    rw [hc.sep, hc.fsep, replace_self, hnorm]
+  res := by
+    rw [hfull, hc.fsep]
+    simp only [Bool.false_eq_true, if_false]
+    unfold findPath
+    simp only [hnorm]
+    have : (nodesRel t).filter (fun pr => fs.isSuffixOf (pathName [c] (t.name :: pr.1)))
+        = (nodesRel t).filter (fun pr => pr.1 == fp) := by
+      apply List.filter_congr
+      intro pr hpr
+      have := huniq pr.1 (mem_paths_of_mem_nodesRel hpr)
+      unfold pathStr at this
+      by_cases h : pr.1 = fp
+      · rw [this.2 h]; simp [h]
+      · have h1 : fs.isSuffixOf (pathName [c] (t.name :: pr.1)) = false := by
+          cases h' : fs.isSuffixOf (pathName [c] (t.name :: pr.1)) with
+          | false => rfl
+          | true => exact absurd (this.1 h') h
+        rw [h1]; simp [h]
+    rw [this, nodesRel_filter_path hu hF]
+  found := hF
+  last := by rw [hc.fsep]; exact hlast
+  root := fun h => by rw [hfull] at h; cases h
 
 end Modify
